@@ -39,6 +39,17 @@ func (queue *FileQueue) VerifWriterPut(op *Inject) error {
 	return queue.SyncFileDB.put(op.Flg, op.Key, op.Val)
 }
 
+// VerifPersisted reads what the bitcask files + position index hold for (flag,key) WITHOUT taking the bitcask's
+// RW lock (read-only; for use while the harness holds that lock to delay the writer): nil = nothing persisted.
+func (queue *FileQueue) VerifPersisted(flag uint32, key []byte) ([]byte, error) {
+	bitcask := queue.SyncFileDB.route(key)
+	pos, err := leveldb.GetPos(bitcask.LevelDB, flag, key)
+	if err != nil || pos == nil {
+		return nil, err
+	}
+	return bitcask.get(flag, key, pos.Offset)
+}
+
 // VerifAfterPut is what FileQueue.start does with a record the writer reports as done (real delIndex).
 func (queue *FileQueue) VerifAfterPut(op *Inject) {
 	queue.afterPut(op)
